@@ -382,3 +382,64 @@ def gamma_matrix(m, npa):
     for i in range(npa):
         g[3 * m["pi"][i]:3 * m["pi"][i] + 3, 3 * i:3 * i + 3] = m["Q"]
     return g
+
+
+# --------------------------------------------------------------------------
+# closed-form models with EXACT cancellations and zeros (dyadic geometry, central-force springs)
+# --------------------------------------------------------------------------
+
+def exact_cells():
+    """name -> (PhonopyAtoms, centring, supercell matrices); lattice constants and positions are dyadic so that bond
+    vectors, r r^T and their sums are exact in binary floating point."""
+    from phonopy.structure.atoms import PhonopyAtoms
+
+    def mk(lat, sym, pos):
+        c = PhonopyAtoms(cell=np.array(lat, dtype=float), symbols=sym, scaled_positions=np.array(pos, dtype=float))
+        if c.masses is None:
+            c.masses = [209.0] * len(sym)
+        return c
+
+    cub = lambda a: [[a, 0, 0], [0, a, 0], [0, 0, a]]  # noqa: E731
+    f4 = [[0, 0, 0], [0, 0.5, 0.5], [0.5, 0, 0.5], [0.5, 0.5, 0]]
+    d2, d4 = np.diag([2, 2, 2]), np.diag([4, 4, 4])
+    return {
+        "fcc a=4 (conventional, F)": (mk(cub(4.0), ["Al"] * 4, f4), "F", [d2, np.diag([2, 2, 4])]),
+        "fcc a=4 (primitive)": (mk([[0, 2, 2], [2, 0, 2], [2, 2, 0]], ["Al"], [[0, 0, 0]]), "P", [d4]),
+        "rock salt a=4 (conventional, F)": (mk(cub(4.0), ["Na"] * 4 + ["Cl"] * 4, f4 + [[0.5, 0.5, 0.5], [0.5, 0, 0], [0, 0.5, 0], [0, 0, 0.5]]),
+                                            "F", [d2]),
+        "rock salt a=4 (primitive)": (mk([[0, 2, 2], [2, 0, 2], [2, 2, 0]], ["Na", "Cl"], [[0, 0, 0], [0.5, 0.5, 0.5]]), "P", [d4]),
+        "bcc a=4 (conventional, I)": (mk(cub(4.0), ["Fe"] * 2, [[0, 0, 0], [0.5, 0.5, 0.5]]), "I", [d2]),
+        "sc a=2": (mk(cub(2.0), ["Po"], [[0, 0, 0]]), "P", [d4]),
+    }
+
+
+def central_kfun(za, zb, r2):
+    """purely central springs: a(r) = 0, b dyadic, so that Phi = -b r r^T and blocks on bonds with x+y+z = 0
+    have nine elements that cancel exactly"""
+    s = float((za * zb) % 3 + 1)
+    return (0.0, s * (0.5 if r2 < 9.0 else 0.125))
+
+
+def structured_fc(rng, ns):
+    """full array whose 3x3 blocks are exactly zero / have a single non-zero element / are exactly antisymmetric /
+    symmetric with cancelling element sum / generic; dyadic entries"""
+    fc = np.zeros((ns, ns, 3, 3))
+    kinds = {}
+    for i in range(ns):
+        for j in range(ns):
+            t = rng.choice(["zero", "single", "antisym", "cancel", "generic", "generic"])
+            b = np.zeros((3, 3))
+            if t == "single":
+                b[rng.randrange(3), rng.randrange(3)] = rng.choice([-2, -1, 1, 2]) / 4.0
+            elif t == "antisym":
+                x, y, z = (rng.randint(-8, 8) / 8.0 for _ in range(3))
+                b = np.array([[0, x, y], [-x, 0, z], [-y, -z, 0]])
+            elif t == "cancel":
+                x = rng.randint(1, 8) / 8.0
+                v = np.array(rng.choice([(1, -1, 0), (1, 0, -1), (0, 1, -1), (2, -1, -1)]), dtype=float)
+                b = -x * np.outer(v, v)
+            elif t == "generic":
+                b = np.array([[rng.randint(-8, 8) / 8.0 for _ in range(3)] for _ in range(3)])
+            fc[i, j] = b
+            kinds[t] = kinds.get(t, 0) + 1
+    return fc, kinds
